@@ -15,6 +15,12 @@ open WS WS.Model
 theorem arg_checks_in_source :
     Gen.appArgChecks = ["ping_timeout LtE 0", "ping_interval Lt 0", "ping_interval LtE ping_timeout"] := by decide
 
+/-- generated facts about the keepalive code: `_send_ping` waits twice (once before and once inside the loop)
+    before the first ping; `check()` compares with `>`, `<`, `>` in this order; the reader loop waits
+    `ping_timeout or 10` seconds. -/
+theorem keepalive_shape :
+    Gen.appPingWaits = 2 ∧ Gen.appCheckOps = ["Gt", "Lt", "Gt"] ∧ Gen.dispatcherDefaultTimeout = 10 := by decide
+
 /-- **C16_args** — the settings `run_forever` accepts are exactly the consistent ones:
     timeout absent or positive, interval non-negative, and, when both are in use, interval > timeout. -/
 theorem C16_args (iv : Int) (to : Option Int) :
